@@ -497,6 +497,11 @@ func newCondSpaceAvoid(fn *ssa.Function, rec AtomRecogniser, avoid map[*ssa.Basi
 			continue
 		}
 		if iff, ok := b.Instrs[len(b.Instrs)-1].(*ssa.If); ok {
+			if isLogVerbosity(iff.Cond) {
+				// log-verbosity tests are treated as non-deterministic: both branches inherit the
+				// block's reaching condition (no rule depends on verbosity; keeps the variable count low)
+				continue
+			}
 			f := cs.formulaOf(iff.Cond)
 			forms[b] = f
 			cs.collect(f, cs.backTo[b])
@@ -701,4 +706,13 @@ func dominatesInstr(a, b ssa.Instruction) bool {
 		return instrIndex(a) < instrIndex(b)
 	}
 	return a.Block().Dominates(b.Block())
+}
+
+// isLogVerbosity: v is  <grpclog.LoggerV2>.V(n).
+func isLogVerbosity(v ssa.Value) bool {
+	call, ok := v.(*ssa.Call)
+	if !ok || !call.Call.IsInvoke() || call.Call.Method.Name() != "V" {
+		return false
+	}
+	return strings.HasSuffix(shortType(call.Call.Value.Type()), "grpclog.LoggerV2")
 }
